@@ -509,6 +509,8 @@ pub struct Stats {
     pub discarded: u64,
     pub sizes: Vec<u32>,
     pub digest: u64,
+    pub dumps: Vec<(u64, u64)>,
+    pub last_dump: Option<String>,
     pub want_desc: bool,
     pub case_desc: Option<Value>,
     pub cur_case: u64,
@@ -566,6 +568,20 @@ impl Stats {
             self.case_desc = Some(f());
         }
     }
+    /// Cross-configuration dump (E5): the full textual answer of this case in this
+    /// process's configuration. Its hash is recorded per case index; the driver diffs the
+    /// per-case hashes of all configurations and re-generates the first differing case.
+    pub fn dump(&mut self, f: impl FnOnce() -> String) {
+        if self.recording || self.want_desc {
+            let s = f();
+            if self.recording {
+                self.dumps.push((self.cur_case, hash_str(&s)));
+            }
+            if self.want_desc {
+                self.last_dump = Some(s);
+            }
+        }
+    }
     /// fold a per-case answer digest (order-independent)
     pub fn digest(&mut self, h: u64) {
         if self.recording {
@@ -591,6 +607,7 @@ impl Stats {
             "samples": self.samples.iter().map(|(i, c, v)| json!([i, c, v])).collect::<Vec<_>>(),
             "excluded_known": self.excluded_known, "discarded": self.discarded,
             "sizes": self.sizes, "digest": self.digest,
+            "dumps": self.dumps.iter().map(|(i, h)| json!([i, h])).collect::<Vec<_>>(),
         })
     }
     pub fn from_json(v: &Value) -> Stats {
@@ -621,6 +638,9 @@ impl Stats {
             st.sizes = a.iter().filter_map(|x| x.as_u64()).map(|x| x as u32).collect();
         }
         st.digest = v["digest"].as_u64().unwrap_or(0);
+        if let Some(a) = v["dumps"].as_array() {
+            st.dumps = a.iter().map(|x| (x[0].as_u64().unwrap_or(0), x[1].as_u64().unwrap_or(0))).collect();
+        }
         st
     }
     pub fn merge(&mut self, o: Stats) {
@@ -641,6 +661,7 @@ impl Stats {
         }
         self.discarded += o.discarded;
         self.digest = self.digest.wrapping_add(o.digest);
+        self.dumps.extend(o.dumps);
         self.sizes.extend(o.sizes);
     }
 }
@@ -703,6 +724,8 @@ pub struct KnownFinding {
 }
 
 pub struct SubReport {
+    pub max_len: usize,
+    pub sub_seed: u64,
     pub name: String,
     pub rule: String,
     pub stats: Stats,
@@ -846,7 +869,9 @@ impl Ctx {
                     Some(fl) => self.report_failure(name, Some((0, &ent)), fl),
                 }
                 self.subs.push(SubReport {
-                    name: name.to_string(),
+                    max_len: 0,
+            sub_seed: 0,
+            name: name.to_string(),
                     rule: rule.to_string(),
                     stats: Stats { cases: 1, evals: 1, ..Stats::default() },
                     exhaustive: false,
@@ -976,6 +1001,8 @@ impl Ctx {
             self.report_failure(name, Some((idx, &ent)), f);
         }
         self.subs.push(SubReport {
+            max_len: budget.max_len,
+            sub_seed: base,
             name: name.to_string(),
             rule: rule.to_string(),
             stats,
@@ -1031,6 +1058,8 @@ impl Ctx {
             }
         }
         self.subs.push(SubReport {
+            max_len: 0,
+            sub_seed: 0,
             name: name.to_string(),
             rule: rule.to_string(),
             stats,
@@ -1075,6 +1104,12 @@ impl Ctx {
         let mut st = Stats { want_desc: true, ..Stats::default() };
         let mut src = Src::new(ent);
         let r = catch(|| f(&mut src, &mut st));
+        if let Some(d) = st.last_dump.take() {
+            // E5 replay: the driver compares these files across configurations
+            let path = format!("{}/out/replay-dump.{}.txt", self.root, self.config);
+            let _ = std::fs::write(&path, &d);
+            println!("REPLAY-DUMP config={} digest={:016x} file={}", self.config, hash_str(&d), path);
+        }
         match r {
             Ok(Ok(())) => None,
             Ok(Err(mut fl)) => {
@@ -1114,6 +1149,8 @@ impl Ctx {
             s.stats.evals += 1;
         } else {
             self.subs.push(SubReport {
+                max_len: 0,
+                sub_seed: 0,
                 name: "replays".into(),
                 rule: "committed regression inputs, run before the search".into(),
                 stats: st,
@@ -1198,6 +1235,9 @@ impl Ctx {
                     "excluded_known_finding_cases": s.stats.excluded_known,
                     "discarded": s.stats.discarded,
                     "answers_digest": format!("{:016x}", s.stats.digest),
+                    "per_case_dump_digests": s.stats.dumps.len(),
+                    "max_entropy_len": s.max_len,
+                    "sub_seed": format!("{:016x}", s.sub_seed),
                     "exhaustive": s.exhaustive,
                     "wall_s": (s.wall_s * 1000.0).round() / 1000.0,
                 }),
@@ -1245,6 +1285,17 @@ impl Ctx {
             .unwrap_or_else(|_| format!("{}/evidence/{}.json", self.root, self.prop));
         if let Some(parent) = std::path::Path::new(&evpath).parent() {
             let _ = std::fs::create_dir_all(parent);
+        }
+        for s in &self.subs {
+            if !s.stats.dumps.is_empty() {
+                let mut d = s.stats.dumps.clone();
+                d.sort();
+                let mut txt = String::with_capacity(d.len() * 28);
+                for (i, h) in d {
+                    txt.push_str(&format!("{} {:016x}\n", i, h));
+                }
+                let _ = std::fs::write(format!("{}.{}.digests", evpath, sanitize(&s.name)), txt);
+            }
         }
         if let Err(e) = std::fs::write(&evpath, serde_json::to_string_pretty(&ev).unwrap() + "\n") {
             eprintln!("cannot write evidence {}: {}", evpath, e);
